@@ -60,6 +60,16 @@ def zipAllOpt (f : Val → Val → Option Bool) : List Val → List Val → Opti
     | _, _ => none
   | _, _ => some false
 
+def optAnd : Option Bool → Option Bool → Option Bool
+  | some a, some b => some (a && b)
+  | _, _ => none
+
+/-- entry `kv` of one map has a key-equal entry in `bs` whose value compares equal under `cmp` -/
+def entryCmp (cmp : Val → Val → Option Bool) (bs : List (Val × Val)) (kv : Val × Val) : Option Bool :=
+  match mapLookup kv.1 bs with
+  | none => some false
+  | some v' => cmp kv.2 v'
+
 /-- reflect.DeepEqual on two values of the universe, on fuel (`none` when it runs out or the
 pair is outside the specified part). Maps are compared by mutual inclusion, which coincides
 with Go's "same length and every key of the left present in the right with a deeply equal
@@ -75,17 +85,7 @@ def deepEqF : Nat → Val → Val → Option Bool
     | .str a, .str b => some (a == b)
     | .list xs, .list ys => zipAllOpt (deepEqF n) xs ys
     | .map xs, .map ys =>
-      let sub := fun (as bs : List (Val × Val)) =>
-        allOpt (fun (kv : Val × Val) => match mapLookup kv.1 bs with
-          | none => some false
-          | some v' => deepEqF n kv.2 v') as
-      let sub' := fun (as bs : List (Val × Val)) =>
-        allOpt (fun (kv : Val × Val) => match mapLookup kv.1 bs with
-          | none => some false
-          | some v' => deepEqF n v' kv.2) as
-      (match sub xs ys, sub' ys xs with
-       | some a, some b => some (a && b)
-       | _, _ => none)
+      optAnd (allOpt (entryCmp (deepEqF n) ys) xs) (allOpt (entryCmp (fun a b => deepEqF n b a) xs) ys)
     | .err _, _ => none
     | _, .err _ => none
     | .env _, _ => none
@@ -113,6 +113,25 @@ def numEq (l r : Val) : Option Bool :=
   | .float a, .int b => some (FOps.eq a (FOps.ofInt b))
   | _, _ => none
 
+/-- the bool branch of `equal`: both sides through tryToBool, an error on either side is "not equal" -/
+def boolEq : Option (Option Bool) → Option (Option Bool) → Option Bool
+  | some (some a), some (some b) => some (a == b)
+  | some none, some _ => some false
+  | some _, some none => some false
+  | _, _ => none
+
+/-- `equal` once a string facing a number has been replaced by the number it denotes -/
+def equalNorm (l r : Val) : Option Bool :=
+  if isNumV l && isNumV r then numEq l r
+  else if l.kind = Kind.bool || r.kind = Kind.bool then boolEq (tryToBool l) (tryToBool r)
+  else deepEq l r
+
+def equalCore (l r : Val) : Option Bool :=
+  match normStrNum l r with
+  | none => none
+  | some none => some false
+  | some (some p) => equalNorm p.1 p.2
+
 /-- `equal(lhsV, rhsV)` on unwrapped values. -/
 def equalV (l r : Val) : Option Bool :=
   match l, r with
@@ -123,18 +142,6 @@ def equalV (l r : Val) : Option Bool :=
   | _, .err _ => none
   | .env _, _ => none
   | _, .env _ => none
-  | _, _ =>
-    match normStrNum l r with
-    | none => none
-    | some none => some false
-    | some (some (l, r)) =>
-      if isNumV l && isNumV r then numEq l r
-      else if l.kind = .bool || r.kind = .bool then
-        match tryToBool l, tryToBool r with
-        | some (some a), some (some b) => some (a == b)
-        | some none, some _ => some false
-        | some _, some none => some false
-        | _, _ => none
-      else deepEq l r
+  | _, _ => equalCore l r
 
 end Anko
